@@ -863,6 +863,40 @@ def unit_index_types(ctx):
                  f"{back if not raised else type(back).__name__}", instance=inst)
 
 
+def unit_fine_far_mesh(ctx):
+    """Cells far finer than the region's comparison tolerance (10^7 cells on an edge of 1 at offset 10^6: the tolerance
+    1e-12 (edge + |p|) is ten cells wide).  Points a few cells beyond a face are inside the tolerance band: the region may
+    accept or refuse them - but "any point of the region maps to an in-range index": an ACCEPTED point must get an
+    index between 0 and n-1 (the boundary cell).  Points well inside behave as everywhere."""
+    side = ctx.choose("side", ["upper", "lower"])
+    j = ctx.choose("cells-beyond-the-face", [0, 1, 2, 3, 5, 8])
+    nd = ctx.choose("ndim", [2, 1])
+    nfine = 10_000_000
+    lo = 1.0e6
+    n = (nfine, 2)[:nd]
+    mesh = df.Mesh(region=df.Region(p1=(lo, 0.0)[:nd], p2=(lo + 1.0, 1.0)[:nd]), n=n)
+    cell = 1.0 / nfine
+    x = lo + 1.0 + j * cell if side == "upper" else lo - j * cell
+    pt = (x, 0.5)[:nd] if nd > 1 else x
+    ctx.step(1, f"point2index({pt!r})")
+    raised, r = C.raises(mesh.point2index, pt)
+    ctx.check()
+    ctx.observe(side, j, raised)
+    if raised:
+        ctx.note("band-point-refused" if j else "face-point-refused")
+        if j == 0:
+            ctx.fail("Mesh.point2index/refuses-point-of-region/face-of-a-fine-far-mesh", f"{pt!r}: {type(r).__name__}: {str(r)[:100]}")
+        return
+    idx = [int(v) for v in r]
+    want0 = nfine - 1 if side == "upper" else 0
+    if not (0 <= idx[0] <= nfine - 1) or (nd > 1 and idx[1] != 1):
+        ctx.fail("Mesh.point2index/index-out-of-range/accepted-point-in-the-tolerance-band",
+                 f"{pt!r} ({j} cells beyond the {side} face, accepted): index {idx}, n={n}", instance=ctx.key())
+    elif abs(idx[0] - want0) > 16:   # rounding of (x - pmin) / cell at 1e6: a few cells; the boundary cell is meant
+        ctx.fail("Mesh.point2index/accepted-band-point-not-in-the-boundary-cell", f"{pt!r}: index {idx}, boundary cell {want0}",
+                 instance=ctx.key())
+
+
 def units(tier):
     return [
         {"name": "lattice1d", "fn": unit_lattice1d, "bound": None},
@@ -875,6 +909,7 @@ def units(tier):
         {"name": "tolerance", "fn": unit_tolerance, "bound": None},
         {"name": "degenerate", "fn": unit_degenerate, "bound": None},
         {"name": "index_types", "fn": unit_index_types, "bound": None},
+        {"name": "fine_far_mesh", "fn": unit_fine_far_mesh, "bound": None},
         {"name": "history", "fn": unit_history, "bound": None},
         {"name": "aliasing", "fn": unit_aliasing, "bound": None},
     ]
